@@ -38,6 +38,7 @@ use hashbrown::HashMap;
 use serde::{Serialize, de::DeserializeOwned};
 use serde_json::{self as json};
 use std::{
+    collections::VecDeque,
     fmt::{Debug, Display},
     future::Future,
     io,
@@ -1112,6 +1113,9 @@ type LsStateCallback = oneshot::Sender<Result<LsState, Err>>;
 
 type GenericCallbacks = Vec<GenericCallback>;
 type AckCallbacks = HashMap<TransactionId, AckCallback>;
+/// All messages of a publish stream carry the transaction ID of the stream, so several of them can
+/// be awaiting their acknowledgement at a time; the server answers them in order.
+type SPubAckCallbacks = HashMap<TransactionId, VecDeque<AckCallback>>;
 type StateCallbacks = HashMap<TransactionId, StateCallback>;
 type CStateCallbacks = HashMap<TransactionId, CStateCallback>;
 type PStateCallbacks = HashMap<TransactionId, PStateCallback>;
@@ -1124,6 +1128,7 @@ type SubLsCallbacks = HashMap<TransactionId, mpsc::UnboundedSender<Vec<RegularKe
 struct Callbacks {
     generic: GenericCallbacks,
     ack: AckCallbacks,
+    spub_ack: SPubAckCallbacks,
     state: StateCallbacks,
     cstate: CStateCallbacks,
     pstate: PStateCallbacks,
@@ -1983,7 +1988,11 @@ async fn process_incoming_command(
                 }))
             }
             Command::SPub(transaction_id, value, callback) => {
-                callbacks.ack.insert(transaction_id, callback);
+                callbacks
+                    .spub_ack
+                    .entry(transaction_id)
+                    .or_default()
+                    .push_back(callback);
                 Some(CM::SPub(SPub {
                     transaction_id,
                     value,
@@ -2343,12 +2352,28 @@ async fn deliver_ls(ls: LsState, callbacks: &mut Callbacks) -> ConnectionResult<
 async fn deliver_ack(ack: Ack, callbacks: &mut Callbacks) {
     if let Some(cb) = callbacks.ack.remove(&ack.transaction_id) {
         cb.send(Ok(ack)).ok();
+    } else if let Some(cb) = next_spub_ack_callback(callbacks, ack.transaction_id) {
+        cb.send(Ok(ack)).ok();
     }
+}
+
+fn next_spub_ack_callback(
+    callbacks: &mut Callbacks,
+    transaction_id: TransactionId,
+) -> Option<AckCallback> {
+    let pending = callbacks.spub_ack.get_mut(&transaction_id)?;
+    let callback = pending.pop_front();
+    if pending.is_empty() {
+        callbacks.spub_ack.remove(&transaction_id);
+    }
+    callback
 }
 
 #[instrument(skip(callbacks), level = "trace", ret)]
 async fn deliver_err(err: Err, callbacks: &mut Callbacks) {
     if let Some(cb) = callbacks.ack.remove(&err.transaction_id) {
+        cb.send(Err(err.clone())).ok();
+    } else if let Some(cb) = next_spub_ack_callback(callbacks, err.transaction_id) {
         cb.send(Err(err.clone())).ok();
     }
     if let Some(cb) = callbacks.state.remove(&err.transaction_id) {
